@@ -155,6 +155,7 @@ def _about_key_only(c):
     no member function of it.  The tables enumerate node states, so a test of node state is a test both of whose outcomes occur; what holds
     between the indices of a level view is an invariant of the key classes that the tables do not know"""
     if c is None: return False
+    if not any(x.k == 'ref' and x.dk == 'param' for x in c.walk()): return False          # (a loop condition over iterators, a local flag: judged as before)
     for x in c.walk():
         if x.k == 'this': return False
         if x.k == 'member' and x.field and (x.d.get('class') or '').startswith(NODE): return False
@@ -884,6 +885,21 @@ class RouterAnalysis:
                 seen += 1
             mx = [n for n in dp.nodes() if n.k == 'call' and (n.calleeq or '') == 'std::max']
             mn = [n for n in dp.nodes() if n.k == 'call' and strip_targs(n.calleeq or '') == 'std::min' and any(x.k == 'call' and strip_targs(x.calleeq or '') == f'{NODE}::depth' for x in n.walk())]
+            def _hand_max():
+                """`if (d > best) best = d;` (or `best < d`) inside the loop: the accumulator takes the larger value"""
+                strip_ = lambda x: (strip_(x.n('sub')) if x is not None and x.k in ('cast', 'paren') and x.n('sub') is not None else x)
+                for n in dp.nodes():
+                    if n.k != 'if' or n.n('c') is None or n.n('t') is None: continue
+                    c = strip_(n.n('c'))
+                    if c is None or c.k != 'binop' or c.op not in ('>', '<', '>=', '<='): continue
+                    big, small = (strip_(c.n('lhs')), strip_(c.n('rhs'))) if c.op in ('>', '>=') else (strip_(c.n('rhs')), strip_(c.n('lhs')))
+                    if big is None or small is None or big.k != 'ref' or small.k != 'ref': continue
+                    for a in n.n('t').walk():
+                        if a.k == 'binop' and a.op == '=':
+                            l_, r_ = strip_(a.n('lhs')), strip_(a.n('rhs'))
+                            if l_ is not None and r_ is not None and l_.k == 'ref' and r_.k == 'ref' and l_.decl == small.decl and r_.decl == big.decl: return True
+                return False
+            if not mx and not fold_ok and okd and not unfollowed and _hand_max(): fold_ok = True
             inst = f'depth = 1 + max over all children (0 for none) [{seen} paths]'
             if mn: self.add('SH.4', False, inst, mn[0].shortloc(), 'depth is not one more than the deepest child (the minimum over the children is taken)', key='SH.4|depth')
             elif unfollowed: self.add('SH.4', None, inst, dp.shortloc(), 'the maximum over the children is computed by a std algorithm: not followed')
